@@ -3,6 +3,7 @@ package props
 import (
 	"context"
 	"encoding/json"
+	"fmt"
 	"strings"
 	"testing"
 
@@ -32,7 +33,12 @@ type exprCase struct {
 	WarmNames  map[string]string   `json:"warmNames,omitempty"`
 	WarmValues map[string]model.AV `json:"warmValues,omitempty"`
 	WarmItem   model.Item          `json:"warmItem,omitempty"` // the item the warm expression is evaluated on (default: Item)
-	RV         string              `json:"rv,omitempty"`       // C07 API sample: the ReturnValues parameter of the UpdateItem
+	// Flood: the expression itself is evaluated first, then this many other,
+	// distinct expression texts, all on the same interpreter instance, before the
+	// evaluation that is compared (anything remembered per text must survive,
+	// or be forgotten cleanly, however many other texts the instance has seen)
+	Flood int    `json:"flood,omitempty"`
+	RV    string `json:"rv,omitempty"` // C07 API sample: the ReturnValues parameter of the UpdateItem
 	Debug      bool                `json:"debug,omitempty"`    // C07 API sample: ActivateDebug() before the table is created
 
 	lang *interpreter.Language // one instance per case (nil: a fresh one per call)
@@ -144,7 +150,22 @@ func richItem(rt *rapid.T, o gen.AVOpts) model.Item {
 		}
 		return model.NumSet(m...)
 	})
-	add("bs", func() model.AV { return model.BinSet(gen.Bytes(false).Draw(rt, "bsV")) })
+	add("bs", func() model.AV {
+		m := [][]byte{gen.Bytes(false).Draw(rt, "bsV")}
+		for i, n := 0, rapid.IntRange(0, 2).Draw(rt, "bsMore"); i < n; i++ {
+			b := gen.Bytes(false).Draw(rt, "bsV")
+			dup := false
+			for _, x := range m {
+				if string(x) == string(b) {
+					dup = true
+				}
+			}
+			if !dup {
+				m = append(m, b)
+			}
+		}
+		return model.BinSet(m...)
+	})
 	for k, v := range gen.Attrs(rt, sub, 2, "extra") {
 		if _, ok := it[k]; !ok {
 			it[k] = v
@@ -298,6 +319,20 @@ func runC06(c exprCase, info *c06Info) *failure {
 			return newFail("runtime panic", "Match(%q): %s", c.Warm, wt)
 		}
 	}
+	if c.Flood > 0 {
+		if _, wt, wrtp := implMatch(exprCase{Expr: c.Expr, Item: model.CloneItem(c.Item), Names: c.Names, Values: model.CloneItem(c.Values), lang: c.lang}); wrtp {
+			return newFail("runtime panic", "Match(%q): %s", c.Expr, wt)
+		}
+		for i := 0; i < c.Flood; i++ {
+			f := fmt.Sprintf("attribute_exists(zf%d)", i)
+			if i%2 == 1 {
+				f = fmt.Sprintf("attribute_not_exists(zf%d)", i)
+			}
+			if _, wt, wrtp := implMatch(exprCase{Expr: f, Item: model.CloneItem(c.Item), lang: c.lang}); wrtp {
+				return newFail("runtime panic", "Match(%q): %s", f, wt)
+			}
+		}
+	}
 	got, text, rtp := implMatch(c)
 	if rtp {
 		return newFail("runtime panic", "Match(%q): %s", c.Expr, text)
@@ -443,6 +478,10 @@ func propC06(rt *rapid.T) {
 				st.Class("name-twin-evaluated-first")
 			}
 		}
+		if rapid.IntRange(0, 63).Draw(rt, "flood") == 37 {
+			ec.Flood = rapid.SampledFrom([]int{64, 65, 70, 130}).Draw(rt, "floodTexts")
+			st.Class("evaluated-again-after-many-other-texts")
+		}
 		pending("C06", "c06", ec)
 		info := &c06Info{}
 		f := runC06(ec, info)
@@ -573,6 +612,24 @@ func runC07(c exprCase, info *c07Info) *failure {
 			return newFail("runtime panic", "Update(%q): %s", c.Warm, wt)
 		}
 	}
+	if c.Flood > 0 {
+		if _, wt, _, wrtp := implUpdate(exprCase{Expr: c.Expr, Item: model.CloneItem(c.Item), Absent: c.Absent, Names: c.Names, Values: model.CloneItem(c.Values), lang: c.lang}); wrtp {
+			return newFail("runtime panic", "Update(%q): %s", c.Expr, wt)
+		}
+		for i := 0; i < c.Flood; i++ {
+			f := fmt.Sprintf("SET zf%d = :zv", i)
+			if i%2 == 1 {
+				f = fmt.Sprintf("REMOVE zf%d", i)
+			}
+			fv := map[string]model.AV{}
+			if i%2 == 0 {
+				fv[":zv"] = model.Str("flood")
+			}
+			if _, wt, _, wrtp := implUpdate(exprCase{Expr: f, Item: model.CloneItem(c.Item), Absent: c.Absent, Values: fv, lang: c.lang}); wrtp {
+				return newFail("runtime panic", "Update(%q): %s", f, wt)
+			}
+		}
+	}
 	got, errText, failed, rtp := implUpdate(c)
 	if rtp {
 		return newFail("runtime panic", "Update(%q): %s", c.Expr, errText)
@@ -695,6 +752,10 @@ func TestC07(t *testing.T) {
 				ec.Warm, ec.WarmNames, ec.WarmValues = tw, n2, v2
 				st.Class("case-twin-evaluated-first")
 			}
+		}
+		if rapid.IntRange(0, 63).Draw(rt, "flood") == 37 {
+			ec.Flood = rapid.SampledFrom([]int{64, 65, 70, 130}).Draw(rt, "floodTexts")
+			st.Class("evaluated-again-after-many-other-texts")
 		}
 		pending("C07", "c07", ec)
 		info := &c07Info{}
